@@ -142,7 +142,12 @@ class FaultEnum(object):
         return None, r
 
     def check_one(self, ops, r0, i, k):
-        r = mem_gen.run_script(self.ctx, self.exe, ops, k=k, opindex=i)
+        # LeakSanitizer's end-of-process scan costs ten times the replay itself and its report is only used to NAME the allocating
+        # function when the harness's own final live count differs from the fault-free one: run without it first, and again with
+        # it only in that case (crashes / sanitizer reports / assertion failures are detected either way)
+        r = mem_gen.run_script(self.ctx, self.exe, ops, k=k, opindex=i, leak=False)
+        if r.fault is None and r.completed and r.end != r0.end:
+            r = mem_gen.run_script(self.ctx, self.exe, ops, k=k, opindex=i, leak=True)
         return (i, k, r)
 
     def judge(self, ops, r0, i, k, r, label):
